@@ -1,7 +1,8 @@
 """C18 — CSV / pandas export writes exactly the selected rows and columns.
 Correspondence: DataFrame.to_csv / DataFrame.to_pandas on real HDF5-backed (BytesIO) frames  vs  Exetera.Export.toCsv /
-toPandas (Lean, `csv.writer` instantiated by Spec.Csv.renderRow); Python's csv.writer / csv.reader vs Spec.Csv.render /
-parse (the opaque-but-specified parameter is validated, exhaustively over short strings); the real importer on the
+toPandas (Lean; the record writer is ExeTera's own `_csv_record` = Export.csvRecord with fixes/D30_NC18a, `csv.writer` =
+Spec.Csv.renderRow in the as-found variant the driver reports next to it); dataframe._csv_record vs Export.csvRecord and
+Python's csv.writer / csv.reader vs Spec.Csv.render / parse (exhaustively over short strings); the real importer on the
 exported file vs Spec.Csv.parse .exetera.
 Oracle for the property itself (check_spec): Python's csv.reader recovers header + [row i | i < n, filter i] from the file
 (strings exactly, numeric literals by value), the re-imported columns equal the exported ones, the pandas columns equal
@@ -26,17 +27,22 @@ TECHNIQUE = ("Lean 4 theorems about the executable model of to_csv/to_pandas and
 LEVEL_TEXT = ("Proof for all frames, filters, column selections and every chunk_row_size >= 1: the model of to_csv writes "
               "writerow(header) followed by writerow of exactly the rows [i < n, filter i] in order, in exactly "
               "len(first column)//chunk_row_size + 1 loop iterations, with no out-of-range access (hence the file does not depend on "
-              "chunk_row_size); for the specified writer (RFC-4180 minimal quoting as done by csv.writer) a standard reader "
-              "recovers every cell when no cell holds a carriage return, and ExeTera's own reader dialect recovers every cell up to "
-              "unquoted leading blanks; to_pandas (with fix NC18b) returns the selected columns restricted to exactly the rows to_csv "
+              "chunk_row_size); with the record writer of fixes/D30_NC18a (the model of dataframe._csv_record) a standard reader and "
+              "ExeTera's own reader dialect - every one of the four dialects - recover the header and every cell of every selected "
+              "row exactly, whatever the cells hold, and the file equals the one csv.writer gives wherever no cell starts with a blank "
+              "or holds a carriage return; for csv.writer itself (as found) the same holds when no cell holds a bare carriage return "
+              "(standard reader) / up to unquoted leading blanks (ExeTera's reader); to_pandas (with fix NC18b) returns the selected columns restricted to exactly the rows to_csv "
               "writes, for every filter to_csv's validator accepts (boolean Field, boolean or integer array, of any length) and "
               "for a Python list; writing the rows of the pandas frame gives the file to_csv writes.")
 LEVEL_NOTE = ("Trusted: Lean kernel; the hand-written model of dataframe.py:574-656 and the CSV writer/reader specification, tied by "
               "the differential run (real to_csv/to_pandas bytes and columns = model, csv.writer = Spec.Csv.render and csv.reader = "
               "Spec.Csv.parse exhaustively over short strings of {a,blank,comma,quote,LF,CR}, real importer = Spec.Csv.parse "
               ".exetera on the re-import cases); Python's str() of numbers (the decimal literal) is checked by value on every case "
-              "but not modelled. Open findings: D30 (unquoted leading blanks are lost on re-import), NC18a (a cell with a bare CR is "
-              "written unquoted by csv.writer of Python < 3.13, so standard readers split the record). Fixed by the patches NC18c/d/e "
+              "but not modelled. Findings D30 (unquoted leading blanks are lost on re-import) and NC18a (a cell with a bare CR is "
+              "written unquoted by csv.writer of Python < 3.13, so standard readers split the record) are repaired by "
+              "fixes/D30_NC18a (to_csv formats its records itself and also quotes such cells); the driver reports the csv.writer "
+              "variant next to the repaired one, so a tree without the fix is recognised (KNOWN-FINDING while the entries are "
+              "open, VIOLATION once they are `fixed`). Fixed by the patches NC18c/d/e "
               "(locale encoding and newline translation, caller's column_filter mutated, same-named foreign filter field drops a "
               "column) and NC18b (to_pandas indexed the columns with the raw row_filter: a Field and a boolean filter of another "
               "length than the frame raised IndexError, an integer array was read as row numbers); the model carries to_pandas in "
@@ -54,15 +60,16 @@ RULE = ("exhaustive: every (row count n <= N, chunk_row_size 1..n+2, row filter 
         "column of the frame itself, random integer arrays with entries other than 0 and 1, malformed: str and non-boolean Field "
         "filters, unknown / empty selections, ragged columns, empty frame. Non-trivial = a successful export with at least 2 data rows and (a filter that drops a row or a "
         "chunk boundary inside the data, crs < n) / a to_pandas call with a filter / a render or parse batch; distinct = distinct case dict.")
-ASSUMPTIONS = ["csv.writer(delimiter=',', lineterminator='\\n') is Spec.Csv.renderRow and csv.reader is Spec.Csv.parse (validated "
-               "exhaustively over short strings on every run, not proved about CPython)",
+ASSUMPTIONS = ["csv.reader is Spec.Csv.parse, dataframe._csv_record is Export.csvRecord and (as-found variant) "
+               "csv.writer(delimiter=',', lineterminator='\\n') is Spec.Csv.renderRow (validated exhaustively over short strings on "
+               "every run, not proved about CPython)",
                "Python str() of int/float/bool is a literal that float()/int() read back to the same value (checked on every case)",
                "h5py/HDF5 field storage returns what was written (C01); numpy boolean indexing; pandas.DataFrame(dict) keeps the arrays",
                "hand-written Lean model validated by this differential run, not verified against the Python text"]
 TRUSTED = ["Lean 4.33 kernel", "axioms: propext, Classical.choice, Quot.sound only (audited per theorem)",
            "checks/harness/c18.py generators, oracle and comparison",
            "Lean model Exetera/Model/Export.lean mirrors dataframe.py to_csv/to_pandas by hand",
-           "Exetera/Spec/CsvRender.lean stands for Python's csv module"]
+           "Exetera/Spec/CsvRender.lean stands for Python's csv module (the reader; the writer only in the as-found variant)"]
 EXPLANATION = ""
 
 INT_KINDS = ["int8", "uint8", "int16", "uint16", "int32", "uint32", "int64"]
